@@ -174,7 +174,13 @@ def main(argv=None):
         print('HARNESS-ERROR property={} driver failed'.format(prop_id))
         return 2
 
-    if tot['errors']:
+    only_flaky = tot['errors'] and all('HarnessError: flaky' in e['trace'] for e in tot['errors'])
+    if only_flaky and all_failures:
+        # Hypothesis gave up in some workers because the code under test did not behave the same way twice (state that
+        # outlives a case); other workers did pin a violation down, with a replay file: that is the verdict
+        for e in tot['errors']:
+            print('note: job {}: hypothesis reported inconsistent behaviour between two executions of one case'.format(e['jobname']))
+    elif tot['errors']:
         for e in tot['errors']:
             print('--- worker error in job {} ---'.format(e['jobname']))
             print(e['trace'])
